@@ -60,6 +60,11 @@ def run(ctx):
         if T.world_key(w) not in seen:
             seen.add(T.world_key(w))
             worlds.append(w)
+    for k in range(24 if quick else 160):      # partly executed RUNNING parents whose child fits only before now + runtime
+        w = T.running_parent_world(ctx.rng)
+        if T.world_key(w) not in seen:
+            seen.add(T.world_key(w))
+            worlds.append(w)
     results = T.run_worlds(worlds, probe=T.probe_spec(ctx, ["c14"]))
     ctx.rules.append("adversarial probes: among the OPTIMAL assignments of the live model (objective >= optimum), the one with the fewest "
                      "placements and one avoiding a chosen task are searched; they must be maximal too")
@@ -68,7 +73,9 @@ def run(ctx):
         "and whole-graph mode; the maximality monitor is applied where the hypotheses of C14_tetri_maximal hold (max_hypb: no "
         "running task, every parent of a task has variables); tiny worlds (<= 3 tasks, <= 2 workers, <= 2 strategies, <= 9 slots) "
         "are compared with the brute-force optimum over all plans; exactly tight back-to-back worlds (one CPU, runtimes adding up to "
-        "the common deadline) exercise touching intervals; distinct = distinct world JSON; non-trivial = >= 2 tasks in the "
+        "the common deadline) exercise touching intervals; whole-graph worlds with a partly executed RUNNING parent whose child fits only in "
+        "(now + remaining, now + runtime] (the monitor takes the parent's expected finish now + remaining from the world description and "
+        "charges running tasks as the formulation does, so that known finding F11-iii stays apart); distinct = distinct world JSON; non-trivial = >= 2 tasks in the "
         "model and at least one task left unplaced or a capacity/precedence conflict between two placed tasks")
 
     def nontrivial(w, r):
@@ -85,7 +92,7 @@ def run(ctx):
     T.monitor_plans(ctx, worlds, results, "M-maximal", "(fun p => maximal_okb (fst p) (snd p))",
                     "a rewarded offered task was left unplaced although it can be added at some (slot, worker, strategy) keeping "
                     "capacity, release, precedence and deadline limits (formulation's convention: half-open occupation on the slot grid)",
-                    skip=lambda inst: not max_hyp_py(inst), probe_kinds=["c14"])
+                    skip=lambda inst: not T.maximal_hyp_py(inst), probe_kinds=["c14"])
     # a task cancelled by the admission control although it is not hopeless is goodput left on the table as well
     T.monitor_hopeless(ctx, worlds, results)
     # ---- brute force on tiny worlds
